@@ -875,9 +875,29 @@ Qed.
 Section Leaf.
 Variable i : Z.
 Hypothesis Hi : 0 <= i < n.
-Notation h := (hgt n i).
+Variable h : nat.
+Hypothesis Hh : hgt n i = h.
 
-Let Hch : hchar n i h := hgt_char n i Hi ltac:(change (2 ^ 63) with 9223372036854775808 in Hn; change (2 ^ 64) with 18446744073709551616; lia).
+Lemma Hch : hchar n i h.
+Proof.
+  rewrite <- Hh. apply hgt_char; [exact Hi|].
+  change (2 ^ 63) with 9223372036854775808 in Hn; change (2 ^ 64) with 18446744073709551616; lia.
+Qed.
+
+Lemma leaf_path : path ls i = bpath ls i h.
+Proof. destruct (path_hgt D H dflt ls i Hi ltac:(lia)) as [Hp _]. rewrite Hh in Hp. exact Hp. Qed.
+
+Lemma leaf_hgt_new : hgt (n + 1) i = if (h <? t)%nat then t else h.
+Proof.
+  destruct (hgt_append n t q i Ht Hi ltac:(change (2 ^ 63) with 9223372036854775808 in Hn; change (2 ^ 64) with 18446744073709551616; lia)) as [_ Eh].
+  rewrite Hh in Eh. exact Eh.
+Qed.
+
+Lemma leaf_path_new : path L' i = bpath L' i (if (h <? t)%nat then t else h).
+Proof.
+  assert (HL : zlength L' = n + 1) by (rewrite zlength_app; reflexivity).
+  destruct (path_hgt D H dflt L' i ltac:(lia) ltac:(lia)) as [Hp _]. rewrite HL in Hp. rewrite leaf_hgt_new in Hp. exact Hp.
+Qed.
 
 Lemma leaf_h63 : (h < 63)%nat.
 Proof.
@@ -904,19 +924,23 @@ Qed.
 Lemma peak_and_height :
   get_peak_index_and_height D (path ls i) i = Some (bidx (i / 2 ^ Z.of_nat h) (Z.of_nat h), Z.of_nat h).
 Proof.
-  unfold get_peak_index_and_height. rewrite (get_direct_path_indices_spec D H dflt ls i Hi ltac:(lia)). cbn [obind].
+  unfold get_peak_index_and_height. rewrite (get_direct_path_indices_spec D H dflt ls i Hi ltac:(lia)). rewrite Hh. cbn [obind].
   rewrite (last_direct i h). cbn [obind].
-  destruct (path_hgt D H dflt ls i Hi ltac:(lia)) as [Hp _]. rewrite Hp. unfold zlen, MmrPaths.bpath.
+  rewrite leaf_path. unfold zlen, MmrPaths.bpath.
   rewrite bpath_from_length. reflexivity.
 Qed.
 
-Lemma peak_parent :
-  (let? sh := shl1 (Z.of_nat h + 1) in add64 (bidx (i / 2 ^ Z.of_nat h) (Z.of_nat h)) sh) =
-  Some (bidx (i / 2 ^ Z.of_nat (S h)) (Z.of_nat (S h))).
+Lemma peak_shl : shl1 (Z.of_nat h + 1) = Some (2 * 2 ^ Z.of_nat h).
 Proof.
-  pose proof leaf_h63 as Hh. destruct Hch as [A B].
+  pose proof leaf_h63 as Hh63.
   unfold shl1. destruct (Z.leb_spec 0 (Z.of_nat h + 1)); [|lia]. destruct (Z.ltb_spec (Z.of_nat h + 1) 64); [|lia].
-  cbn [andb obind]. rewrite p2_succ by lia.
+  cbn [andb]. rewrite p2_succ by lia. reflexivity.
+Qed.
+
+Lemma peak_parent :
+  add64 (bidx (i / 2 ^ Z.of_nat h) (Z.of_nat h)) (2 * 2 ^ Z.of_nat h) = Some (bidx (i / 2 ^ Z.of_nat (S h)) (Z.of_nat (S h))).
+Proof.
+  pose proof leaf_h63 as Hh63. destruct Hch as [A B].
   assert (Hq : 0 <= i / 2 ^ Z.of_nat h) by (apply Z.div_pos; [lia|apply p2_nat_pos]).
   pose proof (bidx_left_parent h (i / 2 ^ Z.of_nat h / 2) ltac:(lia)) as Hlp.
   pose proof (Zmod_even (i / 2 ^ Z.of_nat h)) as Hm. rewrite B in Hm.
@@ -930,7 +954,7 @@ Qed.
 Lemma parent_added :
   zmem (bidx (i / 2 ^ Z.of_nat (S h)) (Z.of_nat (S h))) (bidx n 0 :: dp_nodes_from n 0 t) = (h <? t)%nat.
 Proof.
-  pose proof leaf_h63 as Hh.
+  pose proof leaf_h63 as Hh63.
   destruct (Nat.ltb_spec h t) as [Hlt|Hge].
   - apply zmem_In. right. rewrite leaf_above by lia. apply in_dp_nodes_conv. lia.
   - apply zmem_false. intros [E|Hin].
@@ -944,12 +968,7 @@ Qed.
 (* not merged: the path stays *)
 Lemma path_unchanged : (t < h)%nat -> path L' i = path ls i.
 Proof.
-  intros Hgt.
-  assert (HL : zlength L' = n + 1) by (rewrite zlength_app; reflexivity).
-  destruct (path_hgt D H dflt L' i ltac:(lia) ltac:(lia)) as [Hp _]. rewrite Hp. rewrite HL.
-  destruct (hgt_append n t q i Ht Hi ltac:(change (2 ^ 63) with 9223372036854775808 in Hn; change (2 ^ 64) with 18446744073709551616; lia)) as [_ Eh].
-  rewrite Eh. destruct (Nat.ltb_spec h t); [lia|].
-  destruct (path_hgt D H dflt ls i Hi ltac:(lia)) as [Hp0 _]. rewrite Hp0.
+  intros Hgt. rewrite leaf_path_new, leaf_path. destruct (Nat.ltb_spec h t); [lia|].
   unfold MmrPaths.bpath. apply (bpath_from_app_list D H dflt ls [d] i h ltac:(lia) leaf_tree_in). lia.
 Qed.
 
@@ -995,11 +1014,7 @@ Qed.
 
 Lemma path_extended : path L' i = path ls i ++ bpath_from L' i h (t - h).
 Proof.
-  assert (HL : zlength L' = n + 1) by (rewrite zlength_app; reflexivity).
-  destruct (path_hgt D H dflt L' i ltac:(lia) ltac:(lia)) as [Hp _]. rewrite Hp. rewrite HL.
-  destruct (hgt_append n t q i Ht Hi ltac:(change (2 ^ 63) with 9223372036854775808 in Hn; change (2 ^ 64) with 18446744073709551616; lia)) as [_ Eh].
-  rewrite Eh. destruct (Nat.ltb_spec h t); [|lia].
-  destruct (path_hgt D H dflt ls i Hi ltac:(lia)) as [Hp0 _]. rewrite Hp0.
+  rewrite leaf_path_new, leaf_path. destruct (Nat.ltb_spec h t); [|lia].
   unfold MmrPaths.bpath. replace t with (h + (t - h))%nat at 1 by lia. rewrite bpath_from_app. cbn [Nat.add].
   f_equal. apply (bpath_from_app_list D H dflt ls [d] i h ltac:(lia) leaf_tree_in). lia.
 Qed.
@@ -1016,4 +1031,63 @@ Proof.
 Qed.
 
 End Leaf.
+
+Lemma ufa_loop_cons kn a ni added pk rp missing :
+  ufa_loop D H kn a (ni :: added) (pk :: rp) missing =
+  if zmem ni missing then dins D kn ni a else ufa_loop D H (dins D kn ni a) (H pk a) added rp missing.
+Proof. reflexivity. Qed.
+
+Lemma ufa_loop_spec missing (hstop : nat) : (hstop < t)%nat ->
+  (forall j, (j <= hstop)%nat -> zmem (bidx (n / 2 ^ Z.of_nat j) (Z.of_nat j)) missing = (j =? hstop)%nat) ->
+  forall m s kn rest, (s + m = hstop)%nat ->
+  ufa_loop D H kn (acc s) (bidx (n / 2 ^ Z.of_nat s) (Z.of_nat s) :: dp_nodes_from n s (t - s)) (pks s (t - s) ++ rest) missing =
+  ins_acc kn s (S m).
+Proof.
+  intros Hst Hmem. induction m as [|m IH]; intros s kn rest Hs.
+  - replace (t - s)%nat with (S (t - S s)) by lia. cbn [dp_nodes_from pks app ins_acc]. rewrite ufa_loop_cons.
+    rewrite Hmem by lia. replace (s =? hstop)%nat with true by (symmetry; apply Nat.eqb_eq; lia). reflexivity.
+  - replace (t - s)%nat with (S (t - S s)) by lia. cbn [dp_nodes_from pks app]. rewrite ufa_loop_cons.
+    rewrite Hmem by lia. replace (s =? hstop)%nat with false by (symmetry; apply Nat.eqb_neq; lia).
+    rewrite <- acc_S by lia. rewrite IH by lia. reflexivity.
+Qed.
+
+Lemma ufa_loop_top missing (hstop : nat) rest : (hstop < t)%nat ->
+  (forall j, (j <= hstop)%nat -> zmem (bidx (n / 2 ^ Z.of_nat j) (Z.of_nat j)) missing = (j =? hstop)%nat) ->
+  ufa_loop D H known0 d (bidx n 0 :: dp_nodes_from n 0 t) (pks 0 t ++ rest) missing = ins_acc known0 0 (S hstop).
+Proof.
+  intros Hst Hmem. pose proof (ufa_loop_spec missing hstop Hst Hmem hstop 0 known0 rest ltac:(lia)) as Hu.
+  rewrite acc_0 in Hu. change (2 ^ Z.of_nat 0) with 1 in Hu. rewrite Z.div_1_r in Hu. rewrite Nat.sub_0_r in Hu.
+  exact Hu.
+Qed.
+
+Lemma zlength_bpath L x m : zlength (bpath L x m) = Z.of_nat m.
+Proof. unfold zlength, MmrPaths.bpath. rewrite bpath_from_length. reflexivity. Qed.
+
+Lemma ufa_leaf i (h : nat) : 0 <= i < n -> hgt n i = h ->
+  update_from_append D H (path ls i) i n d (peaks_spec D H dflt ls) = Some (path L' i, (h <? t)%nat) /\
+  zlength (path ls i) = Z.of_nat h /\ zlength (path L' i) = Z.of_nat (if (h <? t)%nat then t else h) /\ h <> t.
+Proof.
+  intros Hi Hh.
+  assert (Hne : h <> t).
+  { destruct (hgt_append n t q i Ht Hi ltac:(change (2 ^ 63) with 9223372036854775808 in Hn; change (2 ^ 64) with 18446744073709551616; lia)) as [Hne _].
+    rewrite Hh in Hne. exact Hne. }
+  split; [|split; [rewrite (leaf_path i Hi h Hh); apply zlength_bpath|split; [rewrite (leaf_path_new i Hi h Hh); apply zlength_bpath|exact Hne]]].
+  unfold update_from_append. rewrite (peak_and_height i Hi h Hh). cbn [obind].
+  rewrite (added_spec n t q Ht Hn). cbn [obind].
+  rewrite (peak_shl i Hi h Hh). cbn [obind]. rewrite (peak_parent i Hi h Hh). cbn [obind].
+  rewrite (parent_added i Hi h Hh).
+  destruct (Nat.ltb_spec h t) as [Hlt|Hge]; cbn [negb].
+  - rewrite (last_direct n t). cbn [obind].
+    unfold add64, two64. change (2 ^ 63) with 9223372036854775808 in Hn.
+    destruct (Z.ltb_spec (n + 1) 18446744073709551616); [|lia]. cbn [obind].
+    unfold num_nodes, two63. destruct (Z.ltb_spec (n + 1) 9223372036854775808); [|lia]. cbn [obind].
+    fold (nn (n + 1)). rewrite (missing_spec i Hi h Hh Hlt). cbn [obind].
+    rewrite (peak_heights_and_indices_spec n Hn0). cbn [obind]. fold known0.
+    destruct old_peaks_rev as (rest & Er). rewrite Er.
+    rewrite (ufa_loop_top _ h rest Hlt (missing_mem i Hi h Hh Hlt)).
+    rewrite (lookup_missing i Hi h Hh Hlt _ (ins_acc_ok (S h) h ltac:(lia) ltac:(lia))). cbn [obind].
+    rewrite (path_extended i Hi h Hh Hlt). reflexivity.
+  - rewrite (path_unchanged i Hi h Hh ltac:(lia)). reflexivity.
+Qed.
+
 End Ufa.
